@@ -265,8 +265,11 @@ def rule_examples(c, prog, R="C14.spec"):
     doc = spec.type_ids("attributes.md")
     n = 0
     for name, (tid, body) in sorted(doc.items()):
-        for m in re.finditer(r"with the value `([^`]+)` (?:would look|looks) like this(?: when serialized)?: `([0-9a-fA-F ]+)`", body):
-            vals, hx = m.group(1), m.group(2)
+        for lead, hx, _raw in spec.hex_examples(body):
+            spans = spec.code_spans(lead)
+            if not spans:
+                continue
+            vals = spans[-1]      # the value the bytes are said to be: the last code span in front of them
             try:
                 want = [float(v) for v in vals.split(",")]
             except ValueError:
@@ -275,6 +278,9 @@ def rule_examples(c, prog, R="C14.spec"):
             if len(raw) != 4 * len(want):
                 continue      # not an all-f32 layout (UDim: f32 + i32, sequences: counts)
             got = list(struct.unpack("<" + "f" * len(want), raw))
+            if re.search(r"\bRGB\b", lead) and all(v == int(v) and 0 <= v <= 255 for v in want):
+                # `the RGB value 0, 102, 255`: the prose gives 8-bit channels, the fields hold them as fractions of 255
+                want = [struct.unpack("<f", struct.pack("<f", v / 255.0))[0] for v in want]
             n += 1
             inst = f"example:{name}"
             if got == want:
@@ -356,12 +362,12 @@ def rule_field_order(c, prog, enc, R="C14.spec"):
             c.violation(R, f"order|{name}", f"docs/attributes.md lists the fields of {name} as {['.'.join(w_) for w_ in want]}; the writer emits {['.'.join(g_) if g_ else '?' for g_ in got]} in that order", "rbx_types/src/attributes/writer.rs", instance=inst)
     # CFrame: position, id, then the matrix as the worked example shows it
     if "CFrame" in arms and "CFrame" in doc:
-        m = re.search(r"CFrame\.Angles\(0, 45, 0\)` looks like this when serialized: `([0-9a-fA-F ]+)`", doc["CFrame"][1])
-        if not m:
-            raise core.AnchorMissing("docs/attributes.md: the long-form CFrame example is gone")
-        raw = bytes.fromhex(m.group(1).replace(" ", ""))
-        if len(raw) != 12 + 1 + 36:
-            raise core.AnchorMissing("docs/attributes.md: the long-form CFrame example is not 49 bytes")
+        raw = None
+        for lead, _hx, rb in spec.hex_examples(doc["CFrame"][1]):
+            if len(rb) == 12 + 1 + 36 and re.search(r"CFrame\.Angles\(0, 45, 0\)", lead):
+                raw = rb
+        if raw is None:
+            raise core.AnchorMissing("docs/attributes.md: the long-form (49-byte) CFrame example for CFrame.Angles(0, 45, 0) is gone")
         mat = struct.unpack("<9f", raw[13:])
         # a rotation about Y: rows (c,0,s),(0,1,0),(-s,0,c).  Row-major shows +s third and -s seventh
         if not (mat[2] > 0.5 and mat[6] < -0.5 and abs(mat[4] - 1.0) < 1e-6):
